@@ -74,7 +74,7 @@ CHECKS = {
          'decompress on packets with independently computed checksums incl. 0x0000/0xFFFF corner values vs extracted model. Byte level: c09_bytes_table (the functions as written on Buffers refine them, same dependency sets); order of execution = CPython list.sort modelled in PySort.v (c09_sort_*, c09_udp_after_sctp).',
          'proof (arithmetic mod 65535, GF(2) linearity of CRC) + model/code correspondence', '7 C09'),
  'C10': ('Theorems c10_*: FIRST = compress with the first applying rule (or the rule-match error); BEST = output of an applying rule, no '
-         'applying rule shorter, ties to the earliest; BEST <= FIRST; a no-compression rule always applies, so a set containing one compresses every parsable packet, under BEST to at most id length + packet length bits (c10_default_best, _best_stack, _first). Tie: ContextManager.compress on '
+         'applying rule shorter, ties to the earliest; BEST <= FIRST; a no-compression rule always applies, so a set containing one compresses every parsable packet, under BEST to at most id length + packet length bits (c10_default_best, _best_stack, _best_bytes, _first). Tie: ContextManager.compress on '
          'rule sets of 1..8 rules x FIRST/BEST x Up/Dw vs extracted model (model parser+matcher+compressor) vs reference selection. Byte level: c10_manager_bytes (ContextManager.compress on Buffers has the outcome of the bit-level manager).',
          'proof (list minimum with strict comparison) + model/code correspondence', '7 C10'),
  'C11': ('Theorems c11_*: with prefix-free ids of any lengths the rule whose id leads the bit string is returned whatever follows; no id a '
